@@ -47,6 +47,7 @@ type Run struct {
 	distinct    map[string]struct{}
 	vioLog      []partialVio
 	capNotes    []string
+	newSeen     map[string]bool
 }
 
 type partialVio struct {
@@ -239,10 +240,18 @@ func (r *Run) Violation(key, msg string, replay any, recheck func() bool) {
 		}
 	}
 	r.mu.Lock()
+	if r.newSeen == nil {
+		r.newSeen = map[string]bool{}
+	}
+	if r.newSeen[key] {
+		r.mu.Unlock()
+		return
+	}
+	r.newSeen[key] = true
 	r.newViol++
 	n := r.newViol
 	r.mu.Unlock()
-	if n > 20 {
+	if n > 40 {
 		return
 	}
 	dir := filepath.Join(verifRoot(), "replays")
